@@ -594,6 +594,11 @@ fn url() -> BoxedStrategy<Option<String>> {
     .boxed()
 }
 
+/// pool timeouts in milliseconds; zero is a value of its own (non-blocking), not "no timeout"
+fn ms() -> BoxedStrategy<u32> {
+    prop_oneof![1 => Just(0u32), 4 => 0u32..5000].boxed()
+}
+
 fn opt<T: std::fmt::Debug + Clone + 'static>(s: BoxedStrategy<T>) -> BoxedStrategy<Option<T>> {
     prop::option::weighted(0.35, s).boxed()
 }
@@ -624,7 +629,7 @@ pub fn case() -> BoxedStrategy<PgCase> {
     );
     let c = (
         opt(any::<u8>().boxed()),
-        opt((0u16..=4096, opt((0u32..5000).boxed()), opt((0u32..5000).boxed()), opt((0u32..5000).boxed()), any::<bool>())
+        opt((0u16..=4096, opt(ms()), opt(ms()), opt(ms()), any::<bool>())
             .prop_map(|(max_size, wait_ms, create_ms, recycle_ms, lifo)| PoolCase {
                 max_size,
                 wait_ms,
